@@ -5,3 +5,10 @@ fail=0
 for f in claims/C*.json; do id=$(basename $f .json); echo $id; done | xargs -P 3 -I{} sh -c './bin/govc check --claim claims/{}.json > /tmp/runall.{}.log 2>&1; echo "{} exit=$? $(tail -1 /tmp/runall.{}.log)"' | sort
 grep -l "^VIOLATION\|^FAILED" /tmp/runall.C*.log 2>/dev/null | while read l; do echo "--- $l"; grep "^FAILED" $l | cut -c1-200; done
 rm -f /tmp/runall.*.log.done
+python3 - <<'PY'
+import json,glob
+for f in sorted(glob.glob('/verif/evidence/C*.json')):
+    e=json.load(open(f))
+    for o in e['coverage'].get('per_obligation',[]):
+        if o['ms']>2500: print("SLOW", e['property_id'], o['ms'], o['solver'], o['name'][:110])
+PY
